@@ -63,6 +63,19 @@ func c01Compare(s *c01Src, cfg Cfg) (kind, detail string) {
 		}
 		return kind, fmt.Sprintf("output %q\n   source observed: %s\n   output observed: %s", co.Code, s.obs, got)
 	}
+	// Annex B.1.1: in a script, "<!--" opens a single-line comment. The reference engine used here does not
+	// implement HTML-like comments, so the hazard is checked on the token level: the output must not place
+	// the tokens < ! -- next to each other without a gap (the subset cannot express that in the source
+	// either: there it would already be a comment for such engines and the two runs would still agree).
+	if strings.Contains(co.Code, "<!--") {
+		if toks, err := ref.Tokenize(co.Code); err == nil {
+			for i := 0; i+2 < len(toks); i++ {
+				if toks[i].Text == "<" && toks[i+1].Text == "!" && toks[i+2].Text == "--" && toks[i].End == toks[i+1].Off && toks[i+1].End == toks[i+2].Off {
+					return "html-comment-introduced", fmt.Sprintf("output %q contains the tokens < ! -- fused into \"<!--\", which script engines implementing HTML-like comments read as a comment", co.Code)
+				}
+			}
+		}
+	}
 	return "", ""
 }
 
@@ -144,6 +157,30 @@ func c01Run(c *core.Ctx) {
 			check(gen.RenderDefault(toks), true, len(toks))
 			check(gen.RenderCompact(toks), true, len(toks))
 		})
+	}
+	// (ii-b) operator adjacency: every binary operator followed by every pair of prefix operators, and every
+	// postfix operator followed by every binary operator and prefix operator (token fusion hazards)
+	{
+		var exprs []*gen.Node
+		for _, op := range gen.BinOps {
+			for _, p1 := range gen.PreOps {
+				for _, p2 := range gen.PreOps {
+					exprs = append(exprs, gen.Bi(op, gen.I("a"), gen.U(p1, gen.U(p2, gen.I("b")))))
+				}
+				for _, po := range gen.PostOps {
+					exprs = append(exprs, gen.Bi(op, gen.Po(po, gen.I("a")), gen.U(p1, gen.I("b"))))
+				}
+			}
+		}
+		for _, e := range exprs {
+			if !c.Next() || c.Tick() {
+				continue
+			}
+			c.Inc("operator_adjacency_programs")
+			prog := []*gen.Node{gen.Ex(gen.Ca(gen.I("print"), e)), gen.Ex(gen.Ca(gen.I("print"), gen.I("a"), gen.I("b")))}
+			toks := gen.UnparseProgram(prog, false)
+			check(gen.RenderDefault(toks), false, len(toks))
+		}
 	}
 	// (iii) executable statement family x layouts
 	level, k := 1, 1
